@@ -641,7 +641,7 @@ fn finish<P: Prop>(prop: &P, opts: &mut Opts, total: Stats, mine: &[Finding], re
             "case": v.case, "detail": v.detail,
         });
         let _ = std::fs::write(&path, serde_json::to_string_pretty(&doc).unwrap_or_default());
-        violation_lines.push((sig.clone(), path, truncate_json(&v.detail, 1200)));
+        violation_lines.push((sig.clone(), path, truncate_json(&v.detail, 700)));
     }
 
     let samples: Vec<Value> = total.samples.values().take(24).cloned().collect();
@@ -713,4 +713,19 @@ fn finish<P: Prop>(prop: &P, opts: &mut Opts, total: Stats, mine: &[Finding], re
         let _ = writeln!(out, "VIOLATION property={id} replay={}", path.display());
     }
     1
+}
+
+/// Draw one value from a strategy with a fixed, index-derived seed (for enumerated classes).
+pub fn sample_one<S: Strategy>(strategy: &S, tag: &str, index: u64) -> S::Value {
+    let mut runner = TestRunner::new_with_rng(
+        Config {
+            failure_persistence: None,
+            ..Config::default()
+        },
+        case_rng(0x5EED, tag, index),
+    );
+    strategy
+        .new_tree(&mut runner)
+        .expect("strategy must not reject")
+        .current()
 }
